@@ -1,12 +1,12 @@
 SPECIFICATION FairSpec
 CONSTANTS
-  N = 4
+  N = 3
   NoNode = 0
   Spurious = FALSE
-  EarlyQuit = TRUE
-  MayIgnoreFlag = TRUE
-  Mutant = "none"
-  MaxNodes = 4
+  EarlyQuit = FALSE
+  MayIgnoreFlag = FALSE
+  Mutant = "nolastquit"
+  MaxNodes = 3
   WithQuit = TRUE
 INVARIANT Safety
 PROPERTY Term
